@@ -467,6 +467,10 @@ fn context_record_fields(
             f(out, &format!("{}.context.record.lookupIndex", t), at + 4 * k + 2, 2, n);
             // the nested lookup is the lookup itself, or another (possibly contextual) one
             fw(out, &format!("{}.context.record.self", t), at + 4 * k + 2, (own as u16).to_be_bytes().to_vec(), n);
+            // ... applied at the first glyph of the sequence, where the same context matches again
+            let mut rec = vec![0u8, 0];
+            rec.extend_from_slice(&(own as u16).to_be_bytes());
+            fw(out, &format!("{}.context.record.selfAtStart", t), at + 4 * k, rec, n);
             if lookup_count > 0 {
                 let other = rng.usize_below(lookup_count) as u16;
                 fw(out, &format!("{}.context.record.other", t), at + 4 * k + 2, other.to_be_bytes().to_vec(), n);
